@@ -16,8 +16,9 @@ from decimal import Decimal, getcontext
 
 import numpy as np
 
-# ---- hash algebra: identical constants in Model/ToastTerm.v
-HASH_M = 2305843009213693951
+# ---- hash algebra: identical constants in Model/ToastTerm.v (arithmetic modulo 2^63)
+MASK = (1 << 63) - 1
+HASH_M = 1 << 63
 HASH_A = 1315423911420697
 HASH_B = 2654435761987643
 HASH_C = 88172645463325252
@@ -25,11 +26,11 @@ HASH_K0 = 6364136223846793005
 
 
 def hbase(k):
-    return ((k + 1) * HASH_K0) % HASH_M
+    return ((k + 1) * HASH_K0) & MASK
 
 
 def hmid(a, b):
-    return (a * HASH_A + b * HASH_B + HASH_C) % HASH_M
+    return (a * HASH_A + b * HASH_B + HASH_C) & MASK
 
 
 # digest of a sequence of tiles (order-sensitive); mirrored by `tiles_digest` in the Coq defs
@@ -39,28 +40,39 @@ DIG_K = 1099511628211
 def tile_word(n, x, y, hs, inc):
     w = n
     for v in (x, y, hs[0], hs[1], hs[2], hs[3], 1 if inc else 0):
-        w = (w * 1000003 + v) % HASH_M
+        w = (w * 1000003 + v) & MASK
     return w
 
 
 def tiles_digest(rows):
     d = 7
     for (n, x, y, hs, inc) in rows:
-        d = (d * DIG_K + tile_word(n, x, y, hs, inc)) % HASH_M
+        d = (d * DIG_K + tile_word(n, x, y, hs, inc)) & MASK
     return d
 
 
 COQ_DIGEST_DEFS = r"""
 Local Open Scope N_scope.
-Definition tile_word (t : htile) : N :=
-  let step w v := (w * 1000003 + v) mod hash_M in
-  step (step (step (step (step (step (step (N.of_nat (pn (tpos t))) (px (tpos t))) (py (tpos t)))
-     (c_ul t)) (c_ur t)) (c_lr t)) (c_ll t)) (if incr t then 1 else 0).
-Definition tiles_digest (l : list htile) : N :=
-  fold_left (fun d t => (d * 1099511628211 + tile_word t) mod hash_M) l 7.
+Definition imul := Uint63.mul.
+Definition iadd := Uint63.add.
+Definition ofN (n : N) : int := i63 (Z.of_N n).
+Definition K1 : int := Eval vm_compute in i63 1000003.
+Definition DK : int := Eval vm_compute in i63 1099511628211.
+Definition tile_word (t : htile) : int :=
+  let step w v := iadd (imul w K1) v in
+  step (step (step (step (step (step (step (ofN (N.of_nat (pn (tpos t)))) (ofN (px (tpos t)))) (ofN (py (tpos t))))
+     (c_ul t)) (c_ur t)) (c_lr t)) (c_ll t)) (if incr t then i63 1 else i63 0).
+Definition tiles_digest (l : list htile) : int :=
+  fold_left (fun d t => iadd (imul d DK) (tile_word t)) l (i63 7).
 Definition cs_of (b : bool) : coordsys := if b then Planet else Astro.
 Definition tbl (l : list pos) : htile -> bool := fun t => existsb (pos_eqb (tpos t)) l.
+Definition ieq := Uint63.eqb.
 """
+
+
+def g_i(v):
+    return "(i63 %d)" % v
+
 
 HALFPI = 0.5 * math.pi
 
@@ -150,7 +162,7 @@ def g_term(t):
 
 def g_htile(row):
     n, x, y, hs, inc = row
-    return "(mkT (mkPos %d %d %d) %d %d %d %d %s)" % (n, x, y, hs[0], hs[1], hs[2], hs[3], "true" if inc else "false")
+    return "(mkT (mkPos %d %d %d) %s %s %s %s %s)" % (n, x, y, g_i(hs[0]), g_i(hs[1]), g_i(hs[2]), g_i(hs[3]), "true" if inc else "false")
 
 
 def g_cs(cs):
@@ -481,13 +493,13 @@ class PyxModel:
         d = 7
         for row in grid:
             for v in row:
-                d = (d * DIG_K + v) % HASH_M
+                d = (d * DIG_K + v) & MASK
         return d
 
 
 COQ_SUB_DIGEST_DEFS = r"""
 Fixpoint range_N (n : nat) : list N := match n with O => [] | S n' => range_N n' ++ [N.of_nat n'] end.
-Definition sub_digest (k : nat) (ul ur lr ll : N) (inc : bool) : N :=
+Definition sub_digest (k : nat) (ul ur lr ll : int) (inc : bool) : int :=
   let idx := range_N (Nat.pow 2 k) in
-  fold_left (fun d i => fold_left (fun d j => (d * 1099511628211 + subsample hmid k ul ur lr ll inc i j) mod hash_M) idx d) idx 7.
+  fold_left (fun d i => fold_left (fun d j => iadd (imul d DK) (subsample hmid k ul ur lr ll inc i j)) idx d) idx (i63 7).
 """
